@@ -971,7 +971,16 @@ def parse_invalid_expr(s, loc, toks):
 @parse_action(atom)
 def parse_atom(toks):
     loc_start, toks, loc_end = toks
-    return toks
+
+    # an atom may carry signs of its own (as in 2 ^ -1); apply them here
+    # so that the enclosing rule sees a single operand
+    *signs, node = toks
+    for sign in reversed(signs):
+        op = Operator.NEG if sign == '-' else Operator.PLUS
+        node = UnaryOp(node, op)
+        node.loc_start = loc_start
+        node.loc_end = loc_end
+    return node
 
 
 @parse_action(builtin_func)
@@ -1126,7 +1135,9 @@ def parse_beep(toks):
 
 @parse_action(bload_stmt)
 def parse_bload_stmt(toks):
-    filespec, offset = toks
+    filespec, *rest = toks
+    # the offset is optional
+    offset = rest[0] if rest else NumericLiteral(0, Type.LONG)
     return BloadStmt(filespec, offset)
 
 
